@@ -332,6 +332,17 @@ func c14R34(r *Report) {
 			}
 		}
 		var do, cp *ssa.Call
+		var cpSrc ssa.Value
+		// copiesParam: the helper hands its k-th parameter to io.Copy as the source
+		copiesParam := func(h *ssa.Function, k int) bool {
+			if h == nil || h.Blocks == nil || k >= len(h.Params) {
+				return false
+			}
+			return anyInstr(h, func(i ssa.Instruction) bool {
+				c, ok := i.(*ssa.Call)
+				return ok && isStdCall(c, "io", "", "Copy") && strip(c.Call.Args[1]) == ssa.Value(h.Params[k])
+			}) != nil
+		}
 		for _, ci := range callsIn(f) {
 			c, ok := ci.(*ssa.Call)
 			if !ok {
@@ -341,7 +352,15 @@ func c14R34(r *Report) {
 				do = c
 			}
 			if isStdCall(c, "io", "", "Copy") {
-				cp = c
+				cp, cpSrc = c, c.Call.Args[1]
+			}
+			// the copy may sit in a helper of the package that is handed the (already limited) body: ws.copyBody(w, body)
+			if h := c.Call.StaticCallee(); h != nil && !c.Call.IsInvoke() && relPkg(h) == "webseed" && cp == nil {
+				for k := range c.Call.Args {
+					if copiesParam(h, k) {
+						cp, cpSrc = c, c.Call.Args[k]
+					}
+				}
 			}
 		}
 		if length == nil || do == nil || cp == nil {
@@ -386,7 +405,7 @@ func c14R34(r *Report) {
 				leavesOK = false
 			}
 		}
-		visit(cp.Call.Args[1], 0)
+		visit(cpSrc, 0)
 		clEq := edgeReq{Name: "Content-Length == requested length", Match: func(cond ssa.Value, pol bool) bool {
 			bo, ok := cond.(*ssa.BinOp)
 			if !ok || (bo.Op != token.NEQ && bo.Op != token.EQL) {
